@@ -1,4 +1,4 @@
-SPECIFICATION OvSimSpec
+SPECIFICATION @OVSIMSPEC@
 CONSTANTS
   Producers <- MCProducers
   Flushers <- MCFlushers
